@@ -1,7 +1,7 @@
 """FLAGRESET — an accumulated boolean is reset before it is accumulated again after having been read (C01, C09, C19).
 
-Instance: a local `bool f` that is accumulated (`f = f || e`, `f |= e`, `f = f && e`, `f &= e`) and read in a
-branch condition.  The accumulation makes f sticky: OR-accumulated flags stay true, AND-accumulated ones stay
+Instance: a local `bool f` that is accumulated (`f = f || e`, `f |= e`, `f = f && e`, `f &= e`, or set to the
+constant opposite to its initialiser: `bool f = false; ... f = true;`) and read in a branch condition.  The accumulation makes f sticky: OR-accumulated flags stay true, AND-accumulated ones stay
 false (the *dirty* value).  Obligation: on every CFG path that leaves a read of f with f dirty (only the
 branch edges consistent with the dirty value are followed, so `res &= x; if (!res) return false;` is fine)
 and reaches a later accumulation of f, f is assigned afresh (plain assignment / re-declaration).  Otherwise
@@ -15,12 +15,53 @@ FLOOR = 2
 ANCHORS = ['ExplicitUpwardInclusion::checkInternal']
 
 
+LOOPS = ('ForStmt', 'WhileStmt', 'DoStmt', 'CXXForRangeStmt')
+
+
+def loop_depth(n):
+    k = 0
+    p = n.get('_p') if n is not None else None
+    while p is not None:
+        if p['k'] in LOOPS:
+            k += 1
+        p = p.get('_p')
+    return k
+
+
+def per_iteration_twin(unit, fn, v):
+    """a sibling implementation (registered pair, rules/sibling.py) of the same method declares a same-named bool local
+    deeper inside its loops: there the flag is per iteration, so here it must be reset per iteration as well"""
+    from .sibling import PAIRS
+    cls = fn.q.rsplit('::', 1)[0]
+    twin = None
+    for a, b in PAIRS:
+        if cls.startswith(a) and not cls.startswith(b):
+            twin = b
+        elif cls.startswith(b):
+            twin = a
+    if twin is None:
+        return False
+    mname = fn.q.rsplit('::', 1)[-1]
+    mine = loop_depth(v['node'])
+    for g in unit.functions:
+        if g.body is None or g.q.rsplit('::', 1)[-1] != mname or not g.q.rsplit('::', 1)[0].startswith(twin):
+            continue
+        if twin == PAIRS[0][0] and g.q.rsplit('::', 1)[0].startswith(PAIRS[0][1]):
+            continue
+        for d2, v2 in var_table(g).items():
+            if v2['kind'] == 'local' and v2['decl'].get('n') == v['decl'].get('n') and unit.ty(v2['decl']).strip() == 'bool':
+                if loop_depth(v2['node']) > mine:
+                    return True
+    return False
+
+
 def run(unit, em):
     for fn in unit.functions:
         if fn.body is None:
             continue
         vt = var_table(fn)
         accs = {}
+        csets = set()
         for n in fn.walk(lambdas=False):
             d = kind = None
             if n['k'] == 'CompoundAssignOperator' and n.get('op') in ('|=', '&='):
@@ -32,6 +73,15 @@ def run(unit, em):
                 if l is not None and l['k'] == 'DeclRefExpr' and r is not None and r['k'] == 'BinaryOperator' and r.get('op') in ('||', '&&', '|', '&'):
                     if any((strip(x) or {}).get('d') == l.get('d') for x in r['ch']):
                         d, kind = l.get('d'), ('or' if r['op'] in ('||', '|') else 'and')
+            if d is None and n['k'] == 'BinaryOperator' and n.get('op') == '=':
+                # constant set `f = true` of a flag whose initial value is the other constant: f = f || true
+                l, r = strip(n['ch'][0]), strip(n['ch'][1])
+                if l is not None and l['k'] == 'DeclRefExpr' and l.get('d') in vt and r is not None and r['k'] == 'CXXBoolLiteralExpr':
+                    v0 = vt[l['d']]
+                    i0 = strip(v0['decl'].get('init')) if v0['kind'] == 'local' and is_node(v0['decl'].get('init')) else None
+                    if i0 is not None and i0['k'] == 'CXXBoolLiteralExpr' and bool(i0.get('v')) != bool(r.get('v')):
+                        d, kind = l['d'], ('or' if bool(r.get('v')) else 'and')
+                        csets.add(d)
             if d is not None and d in vt and vt[d]['kind'] == 'local' and unit.ty(vt[d]['decl']).strip() == 'bool':
                 accs.setdefault(d, ([], set()))
                 accs[d][0].append(n)
@@ -46,6 +96,8 @@ def run(unit, em):
         for d, (fills, kinds) in accs.items():
             if len(kinds) != 1:
                 continue
+            if d in csets and not per_iteration_twin(unit, fn, vt[d]):
+                continue      # a constant-set flag is sticky by design unless a sibling implementation says otherwise
             dirty = (list(kinds)[0] == 'or')
             reads = []
             for n in fn.walk(lambdas=False):
